@@ -19,8 +19,11 @@ for _c, (_h, _sup, _nd, _ref, _lip) in _COV.items():
       defines={'all': {'VF_COV': _c, 'VF_HDR': '"%s"' % _h, 'VF_SUPPORT': _sup, 'VF_NDIM': _nd,
                        'VF_REF(h)': _ref, 'VF_LIP': _lip},
                # degree 8 / 11 polynomials with rounded rational coefficients: the conditions that involve
-               # sqrt(2), sqrt(3) do not finish inside the quick budget and are decided in the thorough tier
-               'quick': {'VF_PD_LEVEL': 1 if _c in ('CovWendland2', 'CovPenta') else 2}, 'thorough': {'VF_PD_LEVEL': 2}},
+               # sqrt(2), sqrt(3) do not finish inside the budgets (quick or thorough) and are outside the claim for these two structures
+               'quick': {'VF_PD_LEVEL': 1 if _c in ('CovWendland2', 'CovPenta') else 2},
+               # thorough: level 2 for these two did not come to a verdict within 10 min per query (z3 nlsat, degree 8/11
+               # with two algebraic constants): not claimed
+               'thorough': {'VF_PD_LEVEL': 1 if _c in ('CovWendland2', 'CovPenta') else 2}},
       bounds={'quick': 'h, s free non-negative reals (a continuum); point sets: 1-D up to 5 equally spaced points with 9 weight vectors; 2-D triangle, square, hexagon, hexagon+centre; 3-D tetrahedron, octahedron, cube'},
       timeout_ms={'quick': 100000, 'thorough': 600000}, validate={'quick': 25, 'thorough': 60},
       native=True,
